@@ -14,4 +14,18 @@ if text.count(needle) != 1:
     sys.exit(1)
 out = os.path.join(build, "evmsim_connector.go")
 open(out, "w").write(text.replace(needle, "verifDialRPC(ctx, rawUrl)"))
-print(json.dumps({src: out}))
+mapping = {src: out}
+# second seam: the pending-set mutex. sync.Mutex waits are not durable for testing/synctest, so the
+# simulator could never let the log loop run into the header loop's critical section. In the scratch
+# copy the mutex operations go through a channel-based lock supplied by the harness (same exclusion,
+# but a blocked Lock is a durable wait), which makes that interleaving schedulable.
+wsrc = os.path.join(repo, "node/pkg/ethereum/watcher.go")
+wtext = open(wsrc).read()
+nl, nu = wtext.count("w.pendingMu.Lock()"), wtext.count("w.pendingMu.Unlock()")
+if nl < 1 or nl != nu:
+    sys.stderr.write("evmsim overlay: unexpected pendingMu usage in watcher.go (%d Lock, %d Unlock)\n" % (nl, nu))
+    sys.exit(1)
+wout = os.path.join(build, "evmsim_watcher.go")
+open(wout, "w").write(wtext.replace("w.pendingMu.Lock()", "verifMuLock(&w.pendingMu)").replace("w.pendingMu.Unlock()", "verifMuUnlock(&w.pendingMu)"))
+mapping[wsrc] = wout
+print(json.dumps(mapping))
